@@ -323,6 +323,11 @@ def run(ck, binary, run_impl, replay):
             elif kind == "del" and b:
                 del b[rng.randrange(len(b))]
             mal.append({"k": "json.dec", "hex": bytes(b).hex(), "assoc": rng.random() < 0.5})
+            # trailing data after a complete value: every kind of following byte, both modes
+            if i < (80 if quick else 1500):
+                for tail in (b"}", b"]", b" }", b"\n]", b"} x", b"]]", b",", b"x", b"\"", b"{", b"[", b"0", b" null", b":", b"}{", b"\x00"):
+                    for assoc in (False, True):
+                        mal.append({"k": "json.dec", "hex": (txt + tail).hex(), "assoc": assoc})
         # nesting: 60 levels of arrays / objects
         deep = "1"
         for i in range(60):
